@@ -191,6 +191,15 @@ class CAbort(Exception):
     """exit(1) reached"""
 
 
+ENUM_IDS = {}
+
+
+def enum_id(name):
+    if name not in ENUM_IDS:
+        ENUM_IDS[name] = 1000 + len(ENUM_IDS)
+    return ENUM_IDS[name]
+
+
 class CLoopSpec:
     """Loop invariant for a loop with symbolic trip count.
        enter(interp, env) -> ghost ; havoc(interp, env, ghost) sets the loop-carried variables to the arbitrary-iteration
@@ -393,6 +402,49 @@ class CInterp:
 
     def s_NullStmt(self, n, env):
         pass
+
+    def s_SwitchStmt(self, n, env):
+        inner = [c for c in n.get("inner", []) if c.get("kind")]
+        cond = self.rv(self.expr(inner[0], env))
+        body = inner[-1]
+        stmts = body.get("inner", []) if body.get("kind") == "CompoundStmt" else [body]
+        # flatten `case A: case B: stmt` chains into (labels, statement) entries, keeping statement order for fall-through
+        flat = []
+        for st in stmts:
+            labels = []
+            while st.get("kind") in ("CaseStmt", "DefaultStmt"):
+                if st["kind"] == "CaseStmt":
+                    labels.append(self.rv(self.expr(st["inner"][0], env)))
+                    st = st["inner"][-1]
+                else:
+                    labels.append("default")
+                    st = st["inner"][-1]
+            flat.append((labels, st))
+        start = None
+        for k, (labels, _st) in enumerate(flat):
+            for lab in labels:
+                if lab == "default":
+                    continue
+                if self.truth(cond == lab):
+                    start = k
+                    break
+            if start is not None:
+                break
+        if start is None:
+            for k, (labels, _st) in enumerate(flat):
+                if "default" in labels:
+                    start = k
+                    break
+        if start is None:
+            return
+        try:
+            for _labels, st in flat[start:]:
+                self.stmt(st, env)
+        except CBreak:
+            pass
+
+    def e_CharacterLiteral(self, n, env):
+        return int(n["value"])
 
     def s_DeclStmt(self, n, env):
         for d in n.get("inner", []):
@@ -701,7 +753,12 @@ class CInterp:
         vid = rd.get("id")
         if vid not in env:
             if rd.get("kind") == "EnumConstantDecl":
-                return ("enum", rd.get("name"))
+                # enumerators are only ever compared for equality in the code under contract: an injective numbering
+                # (order of first use, offset so that it cannot be confused with small literal integers) is a sound model
+                tbl = ENUM_IDS
+                if rd.get("name") not in tbl:
+                    tbl[rd.get("name")] = 1000 + len(tbl)
+                return tbl[rd.get("name")]
             if rd.get("name") in ("stderr", "stdout"):
                 return ("stream", rd.get("name"))
             raise Unsupported(f"reference to unknown variable {rd.get('name')}")
@@ -946,12 +1003,20 @@ class CInterp:
                 return StdVector()
             if len(args) == 1 and isinstance(args[0], StdVector):
                 return StdVector(args[0].items)
+            if len(args) == 1 and isinstance(args[0], VecRegion):
+                # copy / move construction of a region-backed vector: a new region with the same contents
+                src = args[0].region
+                r = Region(core.fresh_name("vec"), src.sort, init=src.mem)
+                r.vsize = getattr(src, "vsize", None)
+                return VecRegion(r)
             if len(args) >= 1 and isinstance(args[0], int):
                 return StdVector([args[1] if len(args) > 1 else 0] * args[0])
-            if len(args) == 1 and isinstance(args[0], SInt):
-                # std::vector<T> v(n) with symbolic n: a heap region, value-initialised (all zero) as the standard requires
+            if len(args) in (1, 2) and isinstance(args[0], SInt):
+                # std::vector<T> v(n[, fill]) with symbolic n: a heap region, value-initialised (all zero) or filled with `fill`
                 real = "float" in qt or "double" in qt
-                r = Region(core.fresh_name("vec"), "real" if real else "int", init=z3.K(z3.IntSort(), z3.RealVal(0) if real else z3.IntVal(0)))
+                fill = args[1] if len(args) == 2 else 0
+                fillv = rterm(fill) if real else term(fill)
+                r = Region(core.fresh_name("vec"), "real" if real else "int", init=z3.K(z3.IntSort(), fillv))
                 r.vsize = args[0]
                 return VecRegion(r)
         raise Unsupported(f"constructor of {qt} with {len(args)} arguments")
